@@ -163,6 +163,11 @@ def run_seeded(sid):
 
 
 if __name__ == "__main__":
+    import atexit, shutil
+    snap = f"/verif/.work/engine-snap-{os.getpid()}"
+    shutil.copytree("/verif/engine", snap)
+    ENV["VERIF_ENGINE"] = snap  # checks are built from this frozen copy: /verif/engine may be edited meanwhile
+    atexit.register(lambda: shutil.rmtree(snap, ignore_errors=True))
     args = sys.argv[1:]
     if sh(f"git -C {REPO} status --porcelain").stdout.strip():
         print("refusing to run: /repo working tree is not clean"); sys.exit(2)
